@@ -294,7 +294,11 @@ class Net:
     def connect(self, listener=0, peer=None, sndbuf=None, send_caps=None):
         cid = len(self.conns)
         if peer is None:
-            peer = ("127.0.0.1", 40000 + cid)
+            if getattr(self, "peer_family", "inet") == "inet6":
+                # what accept() returns on an AF_INET6 listener: (host, port, flowinfo, scope_id)
+                peer = ("2001:db8::%x" % (cid + 1), 40000 + cid, 0, 0)
+            else:
+                peer = ("127.0.0.1", 40000 + cid)
         c = Conn(self, cid, peer, sndbuf or self.default_sndbuf, send_caps)
         self.conns.append(c)
         self.listeners[listener].backlog.append(c)
